@@ -239,7 +239,7 @@ def parse_kani_terse(out):
 
 
 def kani_run(ws, crate, harnesses, features=None, jobs=8, timeout=900, harness_timeout=None,
-             solver=None, extra=(), modpath=None):
+             solver=None, extra=(), modpath=None, c_lib=None):
     """Run the named harnesses of one crate of the woven workspace.  Returns (results, cmd, raw)."""
     cmd = ["cargo", "kani", "-p", crate] + KANI_FLAGS
     if features:
@@ -250,6 +250,8 @@ def kani_run(ws, crate, harnesses, features=None, jobs=8, timeout=900, harness_t
     if solver:
         cmd += ["--solver", solver]
     cmd += list(extra)
+    if c_lib:
+        cmd += ["-Z", "c-ffi", "--c-lib", os.path.join(VERIF, c_lib)]
     if modpath:
         cmd += ["--exact"]
     for h in harnesses:
@@ -262,7 +264,7 @@ def kani_run(ws, crate, harnesses, features=None, jobs=8, timeout=900, harness_t
     return res, meta, out
 
 
-def kani_playback(ws, crate, harness, features=None, timeout=600, solver=None, modpath=None, run_native=True):
+def kani_playback(ws, crate, harness, features=None, timeout=600, solver=None, modpath=None, run_native=True, c_lib=None):
     """Obtain Kani's concrete counterexample for one failing harness (written in place into the
     woven harness file as a #[test]) and execute it natively against the real code with
     `cargo kani playback`.  Returns dict(test_text, native_failed, native_output)."""
@@ -271,6 +273,8 @@ def kani_playback(ws, crate, harness, features=None, timeout=600, solver=None, m
         base += ["--features", features]
     if solver:
         base += ["--solver", solver]
+    if c_lib:
+        base += ["-Z", "c-ffi", "--c-lib", os.path.join(VERIF, c_lib)]
     before = {}
     srcdir = ws.path(crate + "/src")
     for root, _, files in os.walk(srcdir):
@@ -400,10 +404,13 @@ def tool_versions():
 
 def write_evidence(prop, tier, seed, obligations, assumptions, trusted_base, functions, checker_cmds,
                    samples, wall_s, violations, extra=None, undecided=()):
+    # bounded stand-ins are reported but never counted as obligations discharged by proof
+    bounded_obls = [o for o in obligations if o.get("completeness", "complete") != "complete"]
+    obligations = [o for o in obligations if o.get("completeness", "complete") == "complete"]
     total = len(obligations)
     discharged = sum(1 for o in obligations if o["result"] == "discharged")
     proof_ok = total > 0 and discharged == total
-    bounded = [o["name"] for o in obligations if o.get("completeness", "complete") != "complete"]
+    bounded = bounded_obls
     cov = {
         "obligations": total,
         "discharged": discharged,
